@@ -73,3 +73,111 @@ def parse_reply(line):
             k, v = w.split("=", 1)
             d[k] = v
     return d
+
+
+# ----------------------------------------------------------------------------- emission / effective address (real w2c2)
+
+def wait_module(offsets, depth=0):
+    """Module with, per static offset `o`: w32_o(addr, expect:i64, timeout) / w64_o / nt_o(addr, count); `depth` dummy
+    i32 operands below the instruction's operands (so the address operand sits at type-stack index `depth`)."""
+    import sys
+    sys.path.insert(0, os.path.dirname(HERE))
+    from wasmgen import wasm_ast as A, encode
+    m = A.Module()
+    m.types = [A.FuncType([A.I32, A.I64, A.I64], [A.I32]), A.FuncType([A.I32, A.I32], [A.I32])]
+    m.mems = [A.Limits(1, 1, True)]
+    I = A.Instr
+    pre = [I('i32.const', 0)] * depth
+    post = [I('i32.add')] * depth
+    funcs, exports = [], []
+    for o in offsets:
+        funcs.append(A.Function(0, [], pre + [I('local.get', 0), I('local.get', 1), I('i32.wrap_i64'), I('local.get', 2),
+                                              I('memory.atomic.wait32', 2, o)] + post))
+        exports.append(A.Export(b'w32_%d' % o, 'func', len(funcs) - 1))
+        funcs.append(A.Function(0, [], pre + [I('local.get', 0), I('local.get', 1), I('local.get', 2),
+                                              I('memory.atomic.wait64', 3, o)] + post))
+        exports.append(A.Export(b'w64_%d' % o, 'func', len(funcs) - 1))
+        funcs.append(A.Function(1, [], pre + [I('local.get', 0), I('local.get', 1), I('memory.atomic.notify', 2, o)] + post))
+        exports.append(A.Export(b'nt_%d' % o, 'func', len(funcs) - 1))
+    m.funcs = funcs
+    m.exports = exports + [A.Export(b'mem', 'memory', 0)]
+    return m, encode
+
+
+def emitted_calls(c_text):
+    """[(function index, statement text)] for every wait/notify statement w2c2 wrote."""
+    out = []
+    cur = None
+    for line in c_text.splitlines():
+        mm = re.match(r"^\w+ f(\d+)\(", line)
+        if mm:
+            cur = int(mm.group(1))
+        if "wasmMemoryAtomicWait(" in line or "wasmMemoryAtomicNotify(" in line:
+            out.append((cur, line.strip()))
+    return out
+
+
+E2E_MAIN = r'''
+#include <stdio.h>
+#include <pthread.h>
+#include <time.h>
+#include "w2c2_base.h"
+#include "m.h"
+void trap(Trap t) { printf("trap %d\n", (int)t); fflush(stdout); _Exit(3); }
+static mInstance inst;
+typedef struct { U32 (*w)(mInstance*, U32, U64, U64); U32 addr; U64 expect; U32 ret; } warg;
+static void* waiter(void* p) { warg* a = p; a->ret = a->w(&inst, a->addr, a->expect, 5000000000ull); return NULL; }
+static void msleep(int ms) { struct timespec ts; ts.tv_sec = ms / 1000; ts.tv_nsec = (ms % 1000) * 1000000L; nanosleep(&ts, NULL); }
+#define CASE(O) do { \
+    wasmMemory* mem = m_mem(&inst); \
+    U32 a = 64; U32 i; \
+    i32_store(mem, a, 111); i32_store(mem, a + 4, 0); \
+    i64_store(mem, (U64)a + (O), 0x0000000500000222ull); \
+    if ((O) == 0) { i64_store(mem, a, 0x0000000500000222ull); } \
+    printf("off=%u w32_cell=%u w32_other=%u w64_cell=%u w64_other=%u", (unsigned)(O), \
+        m_w32_##O(&inst, a, 0x222, 0), m_w32_##O(&inst, a, 0x999, 0), \
+        m_w64_##O(&inst, a, 0x0000000500000222ull, 0), m_w64_##O(&inst, a, 0x999, 0)); \
+    { warg wa; pthread_t th; U32 n = 0; wa.w = m_w32_##O; wa.addr = a; wa.expect = 0x222; wa.ret = 99; \
+      pthread_create(&th, NULL, waiter, &wa); \
+      for (i = 0; i < 300 && n == 0; i++) { msleep(10); n = m_nt_##O(&inst, a, 1); } \
+      pthread_join(th, NULL); \
+      printf(" notify=%u waiter=%u\n", n, wa.ret); } \
+  } while (0)
+int main(void) {
+  mInstantiate(&inst, NULL);
+@@CASES@@
+  return 0;
+}
+'''
+
+
+def run_offset_e2e(repo_copy, workdir, w2c2_exe, offsets, cc="gcc"):
+    """Translate the wait/notify module with the REAL w2c2, compile with gcc + real futex.c, run.
+    Returns (c_text, {offset: dict(w32_cell, w32_other, w64_cell, w64_other, notify, waiter)})."""
+    m, encode = wait_module(offsets)
+    wasm = os.path.join(workdir, "m.wasm")
+    open(wasm, "wb").write(encode(m))
+    p = subprocess.run([w2c2_exe, wasm, os.path.join(workdir, "m.c")], stdout=subprocess.PIPE, stderr=subprocess.PIPE, text=True)
+    if p.returncode != 0:
+        raise RuntimeError("w2c2 failed on the wait/notify module: " + p.stderr[-800:])
+    c_text = open(os.path.join(workdir, "m.c")).read()
+    open(os.path.join(workdir, "e2emain.c"), "w").write(
+        E2E_MAIN.replace("@@CASES@@", "\n".join("  CASE(%d);" % o for o in offsets)))
+    exe = os.path.join(workdir, "e2e_offset")
+    cmd = [cc, "-O1", "-w", "-DWASM_THREADS_PTHREADS", "-I", os.path.join(repo_copy, "w2c2"), "-I", workdir,
+           os.path.join(workdir, "m.c"), os.path.join(workdir, "e2emain.c")]
+    cmd += [os.path.join(repo_copy, "futex", f) for f in ("futex.c", "list.c", "map.c")] + ["-o", exe, "-lpthread", "-lm"]
+    p = subprocess.run(cmd, stdout=subprocess.PIPE, stderr=subprocess.PIPE, text=True)
+    if p.returncode != 0:
+        raise RuntimeError("compiling the wait/notify module failed:\n" + p.stderr[-2000:])
+    p = subprocess.run([exe], stdout=subprocess.PIPE, stderr=subprocess.PIPE, text=True, timeout=120)
+    res = {}
+    for line in p.stdout.splitlines():
+        d = parse_reply(line)
+        if "off" in d:
+            res[int(d["off"])] = {k: int(v) for k, v in d.items() if k != "off"}
+    return c_text, res
+
+
+# what the specification demands of one CASE(O): the cell at a+O holds 0x222 / 0x0000000500000222
+E2E_EXPECT = {"w32_cell": 2, "w32_other": 1, "w64_cell": 2, "w64_other": 1, "notify": 1, "waiter": 0}
